@@ -319,6 +319,36 @@ func (P *Program) VerifyFunc(fn *ssa.Function, fc *FuncContract) *FuncResult {
 			res.Err = s.Err
 			return res
 		}
+		// frame conditions: calls the function itself must not contain (closures included)
+		for _, nc := range fc.NoCalls {
+			found := ""
+			var scan func(f *ssa.Function)
+			scan = func(f *ssa.Function) {
+				for _, b := range f.Blocks {
+					for _, in := range b.Instrs {
+						ci, ok := in.(ssa.CallInstruction)
+						if !ok {
+							continue
+						}
+						k := s.calleeKeyOf(ci.Common())
+						if k == nc.Callee || strings.HasSuffix(k, "."+nc.Callee) || strings.HasSuffix(k, "/"+nc.Callee) {
+							found = P.Fset.Position(in.Pos()).String()
+						}
+					}
+				}
+				for _, a := range f.AnonFuncs {
+					scan(a)
+				}
+			}
+			scan(fn)
+			goal := "true"
+			src := nc.C.Src
+			if found != "" {
+				goal = "false"
+				src += " [called at " + found + "]"
+			}
+			s.addObl(&Obligation{Name: shortKey(res.Key) + "#nocall:" + nc.Callee + ":" + nc.C.Label, Props: qualProps(fc, nc.C), Kind: "frame", Label: nc.C.Label, Goal: goal, Src: src})
+		}
 		// every call-site assertion must have matched at least one call (vacuity guard)
 		for _, at := range fc.Ats {
 			if !fr.atHit[at.C.Label] {
